@@ -95,6 +95,8 @@ func (f *xorTreeRepair) checkPage() {
 	calculatedXorTree := tree.New(tree.NewXor(), PageSize)
 
 	// acquire global lock
+	f.state.treeMutex.Lock()
+	defer f.state.treeMutex.Unlock()
 	err := f.state.graph.db.Write(context.Background(), func(txn stoabs.WriteTx) error {
 		txs, err := f.state.graph.findBetweenLC(txn, lcStart, lcEnd)
 		if err != nil {
